@@ -1,6 +1,7 @@
 """C08 — authorization: only the entitled signer can act on an account, bank or group."""
 import re
 from props import authlib as A
+from props import c09 as C9
 
 ID = "C08"
 MANIFEST = {
@@ -361,7 +362,29 @@ def suites(rng, tier):
         {"suite": "auth", "name": "auth-double-faults", "lines": d, "distribution": {"cells": len(d)}},
         {"suite": "auth", "name": "signer-rule-fn", "lines": signer_rule_cases(rng, {"quick": 500, "thorough": 20000, "search": 2000}[tier]),
          "distribution": {"exhaustive_flag_words": 128, "signer_configs": 5}},
+        oracle_substitution_suite(rng, {"quick": 1500, "thorough": 30000, "search": 6000}[tier]),
     ]
+
+
+SUBST_REASONS = ("oracle key differs", "venue account key differs", "stake accounts differ", "not owned by", "wrong number of oracle accounts")
+
+
+def oracle_substitution_suite(rng, n):
+    """every oracle kind crossed with single substitutions of an oracle / venue / stake-pool account by one that belongs to
+    another bank or program (reuses C09's oracle-account case generator; the suite runs the real OraclePriceFeedAdapter)"""
+    lines, d, tries = [], {}, 0
+    while len(lines) < n and tries < 40 * n:
+        tries += 1
+        dd = {}
+        line = C9.gen_oracle_case(rng, "malformed", dd)
+        t = list(map(int, line.split()))
+        c, _ = C9.parse_prefix(t)
+        why = C9.authentic(c, c["ais"])
+        if why and why.startswith(SUBST_REASONS):
+            lines.append(line)
+            k = f"setup{c['setup']}:{why.split(' ')[0]}"
+            d[k] = d.get(k, 0) + 1
+    return {"suite": "oracle", "name": "oracle-substitution", "lines": lines, "distribution": d}
 
 
 # ------------------------------------------------------------------------------------------------
@@ -447,6 +470,8 @@ def must_reject(k):
 
 
 def nontrivial(suite, case, impl):
+    if suite == "oracle":
+        return True          # every case is a substitution that must be rejected
     if case.startswith("S "):
         return impl in ("0 0", "0 1", "1 0", "1 1")
     return impl.startswith(("OK", "V ", "B ", "PASSV"))
@@ -472,7 +497,20 @@ def oracle_signer_rule(case, impl):
     return None
 
 
+def oracle_substitution(case, impl):
+    t = list(map(int, case.split()))
+    c, _ = C9.parse_prefix(t)
+    if not impl.split(" | ")[0].startswith("OK"):
+        return None
+    why = C9.authentic(c, c["ais"])
+    if why and why.startswith(SUBST_REASONS):
+        return {"key": "foreign-oracle-accepted", "what": f"oracle setup {c['setup']}: price feed loaded although: {why}"}
+    return None
+
+
 def oracle(suite, case, impl):
+    if suite == "oracle":
+        return oracle_substitution(case, impl)
     if case.startswith("S "):
         return oracle_signer_rule(case, impl)
     k = kvs(case)
